@@ -137,7 +137,13 @@ def corr(seed, tier):
         res.note_case(('stream', sc['id']), True, None)
         res.hit('stream-loop')
         msched = outs[-1].split()[1].split('=')[1] if outs[-1].startswith('total=') else '?'
-        if msched != sc['impl_sched']:
+        mev = outs[-2][3:] if outs[-2].startswith('ev=') else outs[-2]
+        res.hit('stream:' + sc['case']['exception_set'])
+        if mev != sc['impl_events']:
+            res.mismatches.append({'component': 'bandwidth-stream', 'case': sc['case'], 'ops': sc['lines'],
+                                   'first_diverging_op': sc['lines'][-2],
+                                   'impl': 'stream loop: %s' % sc['impl_events'], 'model': 'stream loop: %s' % mev})
+        elif msched != sc['impl_sched']:
             res.mismatches.append({'component': 'bandwidth-stream', 'case': sc['case'], 'ops': sc['lines'],
                                    'first_diverging_op': 'bw state',
                                    'impl': 'scheduled tokens after the stream finished: [%s]' % sc['impl_sched'],
@@ -151,8 +157,11 @@ class _Coord:
 
 
 def _stream_cases(rng, n):
-    """A stream is refused, sleeps, and its transfer fails during the sleep (or not): afterwards the
-    scheduler must hold exactly the tokens of streams still waiting."""
+    """One stream's `_consume_through_leaky_bucket` loop against the model's `streamLoop`: the read
+    is refused (the tracker is warm), the stream sleeps and retries; the transfer's exception is
+    set never / before the read / inside the k-th consume() call (after the loop test, before the
+    bucket answers) / during the sleep.  Compared: the sequence slept* (consumed | raised) and the
+    tokens the scheduler still holds afterwards."""
     from s3transfer.bandwidth import BandwidthLimitedStream, LeakyBucket
     import io
     cases = []
@@ -161,58 +170,84 @@ def _stream_cases(rng, n):
         clock = Clock()
         bucket = LeakyBucket(maxrate, time_utils=clock)
         coord = _Coord()
-        fail_during_sleep = rng.random() < 0.6
+        when = rng.choice(['never', 'before-read', 'consume-0', 'consume-0', 'consume-1', 'sleep-0', 'sleep-0'])
+        cold = rng.random() < 0.15          # no warm-up: the first attempt is granted
         amt = rng.choice([256, 512])
         lines = ['bw new %d' % maxrate]
-
-        class C2(Clock):
-            pass
-        # warm the tracker so that the stream's read is refused
-        warm = BandwidthLimitedStream(io.BytesIO(b'x' * 10000), bucket, _Coord(), clock, bytes_threshold=1)
-        clock.now = Fraction(0)
-        warm.read(amt)
-        lines.append('bw consume %d 0 0/1' % amt)
+        exc = RuntimeError('transfer failed')
+        if not cold:
+            warm = BandwidthLimitedStream(io.BytesIO(b'x' * 10000), bucket, _Coord(), clock, bytes_threshold=1)
+            clock.now = Fraction(0)
+            warm.read(amt)
+            lines.append('bw consume %d 0 0/1' % amt)
         clock.now = Fraction(1, 1024)
         stream = BandwidthLimitedStream(io.BytesIO(b'y' * 10000), bucket, coord, clock, bytes_threshold=1)
-        exc = RuntimeError('transfer failed')
+        attempts = []           # clock reading of each consume() call of the stream
+        state = {'consumes': 0, 'sleeps': 0}
 
-        def sleep(d, coord=coord):
-            clock.sleeps.append(d)
-            if fail_during_sleep:
+        def time(coord=coord, state=state, attempts=attempts, clock=clock, when=when):
+            k = state['consumes']
+            state['consumes'] += 1
+            attempts.append(clock.now)
+            if when == 'consume-%d' % k:
                 coord.exception = exc
+            return float(clock.now)
+
+        def sleep(d, coord=coord, state=state, clock=clock, when=when):
+            clock.sleeps.append(d)
+            if when == 'sleep-%d' % state['sleeps']:
+                coord.exception = exc
+            state['sleeps'] += 1
             clock.now += Fraction(d).limit_denominator(1 << 20)
+        clock.time = time
         clock.sleep = sleep
-        raised = False
+        if when == 'before-read':
+            coord.exception = exc
+        outcome = 'consumed'
         try:
             stream.read(amt)
         except RuntimeError:
-            raised = True
-        lines.append('bw consume %d 1 1/1024' % amt)
-        if raised:
-            lines.append('bw abandon 1')
-        else:
-            lines.append('bw consume %d 1 %s' % (amt, frac(clock.now)))
+            outcome = 'raised'
+        events = ['slept'] * len(clock.sleeps) + [outcome]
+        # what the model is asked is fixed by the scenario, not by what the implementation did:
+        its = _expected_iterations(when, cold, attempts, clock.now)
+        lines.append('bw stream %d 1 %s' % (amt, ' '.join('%s:%d' % (frac(t), e) for t, e in its)))
         lines.append('bw state')
         sch = bucket._consumption_scheduler
-        n_sched = len(sch._tokens_to_scheduled_consumption)
-        impl_sched = '1' if n_sched else ''
-        # only the scheduler contents are compared for the stream loop (rate/total follow from them)
-        cases.append({'id': i, 'lines': lines, 'case': {'max_rate': maxrate, 'amount': amt, 'transfer_fails_during_sleep': fail_during_sleep,
-                                                         'raised': raised},
-                      'impl_sched': impl_sched, 'impl_state': None, 'raised': raised})
+        impl_sched = '1' if len(sch._tokens_to_scheduled_consumption) else ''
+        cases.append({'id': i, 'lines': lines,
+                      'case': {'max_rate': maxrate, 'amount': amt, 'exception_set': when, 'tracker_warm': not cold,
+                               'implementation_events': events},
+                      'impl_sched': impl_sched, 'impl_events': ','.join(events)})
     return cases
+
+
+def _expected_iterations(when, cold, attempts, now_after):
+    """Loop tests of the scenario: (clock reading, exception set at the test).  The first attempt is
+    at 1/1024; a refused attempt is followed by a sleep and a second test at the clock reading after
+    it (taken from the run: the sleep length is the bucket's answer, compared separately)."""
+    t0 = Fraction(1, 1024)
+    if when == 'before-read':
+        return [(t0, True)]
+    t1 = attempts[1] if len(attempts) > 1 else now_after
+    second_exc = when in ('consume-0', 'sleep-0')
+    return [(t0, False), (t1, second_exc)]
 
 
 # ---------------------------------------------------------------------------
 def simulate(seed, nstreams, maxrate, amount, think, n_reads, late, abandon_at, mode='uniform'):
     """Run real BandwidthLimitedStreams sharing one LeakyBucket under the deterministic scheduler in
     virtual time.  think(i, k) -> seconds before stream i's k-th read; late: extra delay added to
-    every sleep; abandon_at: {stream: k} the transfer of that stream fails during its k-th wait."""
+    every sleep; abandon_at: {stream: k} the transfer of that stream fails during its k-th wait, or
+    {stream: ('consume', k)}: inside its k-th consume() call (after the loop tested the exception,
+    before the bucket answers).  A stream stops reading once its transfer failed (as GetObjectTask
+    does).  `bad_returns`: reads that were refused after the failure and still returned data."""
     import io
     from sched import Scheduler
     from shim import Installed
     sch = Scheduler(seed=seed, mode=mode, max_steps=400000)
     grants, refusals, sleeps, errors = [], [], [], []
+    bad_returns, refused_after_fail, nconsume = [], {}, {}
     with Installed(sch, modules=['bandwidth']) as sh:
         sh.yield_on_release = False     # the grant / refusal is logged right after consume() returns
         from s3transfer.bandwidth import BandwidthLimitedStream, LeakyBucket, TimeUtils
@@ -220,14 +255,22 @@ def simulate(seed, nstreams, maxrate, amount, think, n_reads, late, abandon_at, 
         orig_consume = bucket.consume
 
         def consume(amt, token):
+            i = owner.get(id(token))
+            k = nconsume.get(i, 0)
+            nconsume[i] = k + 1
+            if abandon_at.get(i) == ('consume', k):
+                coords[i].exception = RuntimeError('transfer %d failed' % i)
             try:
                 r = orig_consume(amt, token)
                 grants.append((sch.clock, amt, id(token), sch.tick()))
                 return r
             except Exception as e:   # RequestExceededException
                 refusals.append((sch.clock, amt, id(token), getattr(e, 'retry_time', None), sch.tick()))
+                if i is not None and coords[i].exception is not None:
+                    refused_after_fail[i] = True
                 raise
         bucket.consume = consume
+        owner = {}
 
         class Src:
             def read(self, n):
@@ -255,12 +298,17 @@ def simulate(seed, nstreams, maxrate, amount, think, n_reads, late, abandon_at, 
             def run():
                 st = BandwidthLimitedStream(Src(), bucket, coords[i], LateTime(i), bytes_threshold=amount)
                 tokens[i] = id(st._request_token)
+                owner[id(st._request_token)] = i
                 for k in range(n_reads):
                     sch.sleep(think(i, k))
                     try:
                         st.read(amount)
                     except RuntimeError as e:
                         errors.append((i, sch.clock, str(e), sch.tick()))
+                        return
+                    if coords[i].exception is not None:
+                        if refused_after_fail.get(i):
+                            bad_returns.append((i, k, sch.clock))
                         return
             return run
         tokens = {}
@@ -269,13 +317,14 @@ def simulate(seed, nstreams, maxrate, amount, think, n_reads, late, abandon_at, 
             ts = [sch.spawn(stream(i), 's%d' % i) for i in range(nstreams)]
             sch.block_until(lambda: all(t.finished for t in ts), 'join')
         fail = sch.run(main, timeout=60)
-    return {'grants': grants, 'refusals': refusals, 'sleeps': sleeps, 'errors': errors, 'fail': fail, 'tokens': tokens}
+    return {'grants': grants, 'refusals': refusals, 'sleeps': sleeps, 'errors': errors, 'fail': fail, 'tokens': tokens,
+            'bad_returns': bad_returns}
 
 
 def oracle(seed, tier):
     res = OracleResult('C13')
     rng = rng_for(seed, 'bandwidth-oracle')
-    n = 25 if tier == 'quick' else 400
+    n = 60 if tier == 'quick' else 1200
     for it in range(n):
         nstreams = rng.randrange(1, 9)
         maxrate = rng.choice([1 << 20, 1 << 16, 100000])
@@ -294,7 +343,10 @@ def oracle(seed, tier):
         late = (lambda i, k: 0.0) if rng.random() < 0.5 else (lambda i, k: base * r2.uniform(0, 0.5))
         abandon_at = {}
         if kind == 'abandon' and nstreams >= 2:
-            abandon_at = {0: 0}
+            who = rng.randrange(nstreams)
+            abandon_at = {who: rng.randrange(0, 3)} if rng.random() < 0.5 else {who: ('consume', rng.randrange(0, 8))}
+            if rng.random() < 0.7:
+                think = lambda i, k: 0.0
         n_reads = rng.randrange(8, 30)
         sim = simulate(rng.randrange(1 << 30), nstreams, maxrate, amount, think, n_reads, late, abandon_at)
         res.evaluations += 1
@@ -304,6 +356,10 @@ def oracle(seed, tier):
         if sim['fail'] is not None:
             res.violation('limiter-hangs', wit, repr(sim['fail']))
             continue
+        for i, k, t in sim['bad_returns']:
+            res.violation('failed-read-returned-data', dict(wit, stream=i, read=k, at=t),
+                          "stream %d's transfer had failed when its read %d was refused by the limiter, and the read returned "
+                          "data instead of raising the transfer's error" % (i, k))
         grants = sorted(sim['grants'], key=lambda g: g[3])
         # interval bound: every window between two grants
         burst = (2 * nstreams + 4) * amount
